@@ -3,6 +3,7 @@
 From Coq Require Import List Arith Bool NArith.
 From GV Require Import Base.Result Gen.TokenTypes Gen.Defs Gen.Instr Model.Parser Model.BuilderWL Model.Compile
   Spec.WfCode Proofs.C05.Known Proofs.C05.WfSound Proofs.C05.Bounded Proofs.C05.Refuted Proofs.C05.Operands Proofs.C05.Jumps Proofs.C05.Bodies Proofs.C05.Bounded7.
+From GV Require Import Proofs.C05.Statements.
 Import ListNotations.
 
 (* the executable checker (run natively on every real instruction stream by the
@@ -18,14 +19,14 @@ Print Assumptions C05_checker_decides.
    tree is in finding class C05-K1 *)
 Theorem C05_triples_bounded_3 : forall a b c init, In init inits ->
   build_wf_or_known [a; b; c] init.
-Proof. intros a b c init Hi. exact (proj1 (check_b_meaning _ init (triples_check a b c) Hi)). Qed.
+Proof. exact C05_triples_bounded_3_proof. Qed.
 Print Assumptions C05_triples_bounded_3.
 
 (* the same for every token sequence of length <= 5 over the reduced alphabet *)
 Theorem C05_reduced_bounded_5 : forall toks init,
   length toks <= 5 -> (forall x, In x toks -> In x reduced_alphabet) -> In init inits ->
   build_wf_or_known toks init.
-Proof. intros toks init Hl Ha Hi. exact (proj1 (check_b_meaning _ init (reduced_check toks Hl Ha) Hi)). Qed.
+Proof. exact C05_reduced_bounded_5_proof. Qed.
 Print Assumptions C05_reduced_bounded_5.
 
 (* on the same inputs the structurally recursive compiler of Model/Compile.v
@@ -33,13 +34,13 @@ Print Assumptions C05_reduced_bounded_5.
    build() (what is diffed against the Rust on every run) produce the same
    instructions, jump table, metadata and entry, or fail in the same class *)
 Theorem C05_compile_agrees_bounded_3 : forall a b c init, In init inits -> compile_agrees [a; b; c] init.
-Proof. intros a b c init Hi. exact (proj2 (check_b_meaning _ init (triples_check a b c) Hi)). Qed.
+Proof. exact C05_compile_agrees_bounded_3_proof. Qed.
 Print Assumptions C05_compile_agrees_bounded_3.
 
 Theorem C05_compile_agrees_bounded_5 : forall toks init,
   length toks <= 5 -> (forall x, In x toks -> In x reduced_alphabet) -> In init inits ->
   compile_agrees toks init.
-Proof. intros toks init Hl Ha Hi. exact (proj2 (check_b_meaning _ init (reduced_check toks Hl Ha) Hi)). Qed.
+Proof. exact C05_compile_agrees_bounded_5_proof. Qed.
 Print Assumptions C05_compile_agrees_bounded_5.
 
 (* ... and for every token sequence of length 7 over the ten-token small
@@ -47,7 +48,7 @@ Print Assumptions C05_compile_agrees_bounded_5.
 Theorem C05_small_bounded_7 : forall toks init,
   length toks = 7 -> (forall x, In x toks -> In x small_alphabet) -> In init inits ->
   build_wf_or_known toks init /\ compile_agrees toks init.
-Proof. intros toks init Hl Ha Hi. exact (check_b_meaning _ init (small_check_b toks Hl Ha) Hi). Qed.
+Proof. exact C05_small_bounded_7_proof. Qed.
 Print Assumptions C05_small_bounded_7.
 
 (* the exclusions are necessary: a member of each class whose build is not well-formed *)
@@ -90,10 +91,7 @@ Theorem C05_operands_meta_all_trees : forall nodes root t init lit r,
   tree_of nodes root = Some t ->
   compile init lit t = Ok r ->
   operands_wf nodes init (code_of_compile r) /\ meta_wf nodes (code_of_compile r).
-Proof.
-  intros nodes root t init lit r Ht Hc.
-  exact (compile_operands_meta nodes init lit t r (tree_of_in nodes root t Ht) Hc).
-Qed.
+Proof. exact C05_operands_meta_all_trees_proof. Qed.
 Print Assumptions C05_operands_meta_all_trees.
 
 (* the full statement: for every node array that is a proper tree below its
@@ -112,14 +110,7 @@ Definition C05_full_statement : Prop :=
    such body is emitted and patches it, every body that is emitted adds at
    least one instruction and ends in a terminator *)
 Theorem C05_full : C05_full_statement.
-Proof.
-  intros nodes root t init lit r Ht Hk1 Hk2 Hc.
-  apply (compile_wf init lit nodes t r (tree_of_in nodes root t Ht)); [| | exact Hc].
-  - split.
-    + destruct (drops_arms t) eqn:E; [exfalso; apply Hk2; exact E | reflexivity].
-    + destruct (has_empty_body t) eqn:E; [exfalso; apply Hk1; left; exact E | reflexivity].
-  - destruct (empty_after_end init t) eqn:E; [exfalso; apply Hk1; right; exact E | reflexivity].
-Qed.
+Proof. exact C05_full_proof. Qed.
 Print Assumptions C05_full.
 
 (* non-vacuity: a program with a conditional, a logical operator and a nested
